@@ -178,7 +178,7 @@ Qed.
 
 (* ------------------------------------------------------------------ blob_at, collect *)
 
-Lemma blob_at_blob : forall x c p d, blob_at (Blob x c) p = Some d <-> p = [] /\ d = c.
+Lemma blob_at_blob : forall x c p d, blob_at (Blob x c) p = Some d <-> p = [] /\ d = (x, c).
 Proof.
   intros x c p d. destruct p; simpl; split; intro H.
   - inversion H. split; reflexivity.
@@ -253,7 +253,10 @@ Proof.
   induction es as [|ne r IH]; destruct es' as [|ne' r']; reflexivity.
 Qed.
 
-Lemma kind_class : forall a b, ekind_eqb (kind_of a) (kind_of b) = true -> is_special a = is_special b.
+Lemma ekind_eqb_eq : forall a b, ekind_eqb a b = true <-> a = b.
+Proof. intros a b. destruct a, b; simpl; split; intro H; try discriminate; reflexivity. Qed.
+
+Lemma kind_special : forall a b, kind_of a = kind_of b -> is_special a = is_special b.
 Proof.
   intros a b. destruct a as [[|] ?| | |], b as [[|] ?| | |]; simpl; intro H; try discriminate; reflexivity.
 Qed.
@@ -267,9 +270,8 @@ Lemma tree_oid_cons : forall ne r ne' r',
 Proof.
   intros ne r ne' r' H. cbn [tree_oid_eqb] in H.
   apply andb_true_iff in H as [H H4]. apply andb_true_iff in H as [H H3].
-  apply andb_true_iff in H as [H1 H2]. apply str_eqb_eq in H1. apply kind_class in H2.
-  split; [exact H1|]. split; [|exact H4]. unfold same_object. rewrite H3, H2.
-  destruct (is_special (snd ne')); reflexivity.
+  apply andb_true_iff in H as [H1 H2]. apply str_eqb_eq in H1.
+  split; [exact H1|]. split; [|exact H4]. unfold same_object. rewrite H3, H2. reflexivity.
 Qed.
 
 (* equal ids (and class): the same regular files with the same contents *)
@@ -277,8 +279,9 @@ Lemma same_object_blob_at : forall a b, same_object a b = true -> forall p, blob
 Proof.
   induction a as [x c|es IH|t|i] using gentry_ind2; intros b H p;
     pose proof H as H0; unfold same_object in H; apply andb_true_iff in H as [H1 H2];
-    destruct b as [x' c'|es'|t'|i']; simpl in H1, H2; try discriminate.
-  - apply str_eqb_eq in H1. subst. destruct p; reflexivity.
+    destruct b as [x' c'|es'|t'|i']; simpl in H1, H2; try discriminate;
+    try (match goal with H : context [if ?b then _ else _] |- _ => destruct b; discriminate end).
+  - apply str_eqb_eq in H1. subst. destruct x, x'; try discriminate; destruct p; reflexivity.
   - clear H1 H2. rewrite same_object_tree in H0. destruct p as [|n q]; [reflexivity|].
     rewrite !blob_at_tree_cons. revert es' H0.
     induction es as [|ne r IHr]; destruct es' as [|ne' r']; intro H0; try discriminate; [reflexivity|].
@@ -294,8 +297,9 @@ Lemma same_object_blobs : forall a b, same_object a b = true -> blobs a = blobs 
 Proof.
   induction a as [x c|es IH|t|i] using gentry_ind2; intros b H;
     pose proof H as H0; unfold same_object in H; apply andb_true_iff in H as [H1 H2];
-    destruct b as [x' c'|es'|t'|i']; simpl in H1, H2; try discriminate; try reflexivity.
-  - apply str_eqb_eq in H1. subst. reflexivity.
+    destruct b as [x' c'|es'|t'|i']; simpl in H1, H2; try discriminate; try reflexivity;
+    try (match goal with H : context [if ?b then _ else _] |- _ => destruct b; discriminate end).
+  - apply str_eqb_eq in H1. subst. destruct x, x'; try discriminate; reflexivity.
   - clear H1 H2. rewrite same_object_tree in H0. cbn [blobs]. revert es' H0.
     induction es as [|ne r IHr]; destruct es' as [|ne' r']; intro H0; try discriminate; [reflexivity|].
     apply tree_oid_cons in H0 as [E [S R]]. inversion IH as [|? ? IHne IHrest]; subst.
@@ -319,10 +323,10 @@ Proof.
   - intros [H1 H2]. congruence.
 Qed.
 
-Lemma exact_blob_blob : forall x c x' c', c <> c' -> exact [(Chg, [])] (Blob x c) (Blob x' c').
+Lemma exact_blob_blob : forall x c x' c', (x, c) <> (x', c') -> exact [(Chg, [])] (Blob x c) (Blob x' c').
 Proof.
   intros x c x' c' N t p. split.
-  - intros [H|[]]. inversion H; subst. exists c'. split; [reflexivity|]. simpl. congruence.
+  - intros [H|[]]. inversion H; subst. exists (x', c'). split; [reflexivity|]. simpl. congruence.
   - destruct t.
     + intros [d [H1 H2]]. apply blob_at_blob in H1 as [-> ->]. left. reflexivity.
     + intros [H1 H2]. destruct p; simpl in *; congruence.
@@ -355,7 +359,7 @@ Proof.
   intros bes x c W t p. rewrite in_app_iff, deleted_spec, (collect_spec _ W). split.
   - intros [[-> H]|[H|[]]].
     + split; [exact H|]. destruct p; [simpl in H; congruence | reflexivity].
-    + inversion H; subst. exists c. split; [reflexivity | simpl; discriminate].
+    + inversion H; subst. exists (x, c). split; [reflexivity | simpl; discriminate].
   - destruct t.
     + intros [d [H1 H2]]. apply blob_at_blob in H1 as [-> ->]. right. left. reflexivity.
     + intros [H1 H2]. left. split; [reflexivity | exact H1].
@@ -429,8 +433,8 @@ Proof.
     match goal with |- exact (if same_object ?b ?t then _ else _) _ _ => destruct (same_object b t) eqn:SO end;
     try (apply exact_nil_of_same; exact SO).
   - destruct be as [x' c'|bes|l'|i']; cbn [process_changed_entry].
-    + apply exact_blob_blob. unfold same_object in SO. simpl in SO. rewrite andb_true_r in SO.
-      apply str_eqb_neq in SO. exact SO.
+    + apply exact_blob_blob. intro E. inversion E; subst. unfold same_object in SO. simpl in SO.
+      rewrite str_eqb_refl in SO. destruct x; discriminate.
     + apply exact_tree_blob. exact Wb.
     + apply exact_special_be; [reflexivity | exact Wt].
     + apply exact_special_be; [reflexivity | exact Wt].
@@ -642,10 +646,10 @@ Proof.
   - intros [H1 H2]. split; [exact H1|]. exists f. split; [apply H; exact H1|]. split; [exact H2 | apply H; exact H1].
 Qed.
 
-Lemma option_str_neq : forall a b : option str,
+Lemma option_str_neq : forall (A : Type) (a b : option A),
   a <> b <-> (exists c, b = Some c /\ a <> Some c) \/ (a <> None /\ b = None).
 Proof.
-  intros a b. split.
+  intros A a b. split.
   - intro N. destruct b as [c|].
     + left. exists c. split; [reflexivity | exact N].
     + right. split; [exact N | reflexivity].
@@ -732,7 +736,7 @@ Lemma if_congr : forall (A : Type) (c : bool) (x y y' : A),
   y = y' -> (if c then x else y) = (if c then x else y').
 Proof. intros. subst. reflexivity. Qed.
 
-Lemma assoc_path_map_cons : forall n q m (l : list (path * str)),
+Lemma assoc_path_map_cons : forall (A : Type) n q m (l : list (path * A)),
   assoc_path (n :: q) (map (fun pc => (m :: fst pc, snd pc)) l) =
   if str_eqb n m then assoc_path q l else None.
 Proof.
@@ -743,7 +747,7 @@ Proof.
     + exact IH.
 Qed.
 
-Lemma assoc_path_nil_map : forall m (l : list (path * str)),
+Lemma assoc_path_nil_map : forall (A : Type) m (l : list (path * A)),
   assoc_path [] (map (fun pc => (m :: fst pc, snd pc)) l) = None.
 Proof. induction l as [|pc r IH]; simpl; [reflexivity | exact IH]. Qed.
 
@@ -799,7 +803,7 @@ Proof.
   - destruct p; reflexivity.
 Qed.
 
-Definition head_blob_at (head : option (list (name * gentry))) (p : path) : option str :=
+Definition head_blob_at (head : option (list (name * gentry))) (p : path) : option file :=
   match head with Some es => blob_at (Tree es) p | None => None end.
 
 Definition wf_head (head : option (list (name * gentry))) : Prop :=
@@ -811,13 +815,20 @@ Proof.
   intros [es|] W p; [apply assoc_path_blobs; exact W | reflexivity].
 Qed.
 
-Lemma iblob_at_some : forall idx p c, NoDup (map fst idx) ->
-  (iblob_at idx p = Some c <-> exists x, In (p, IBlob x c) idx).
+Lemma file_eqb_eq : forall a b : file, file_eqb a b = true <-> a = b.
 Proof.
-  intros idx p c ND. unfold iblob_at. split.
-  - destruct (assoc_path p idx) as [[x d|t|i]|] eqn:A; intro H; try discriminate.
-    inversion H; subst. exists x. apply assoc_path_some_in. exact A.
-  - intros [x H]. rewrite (assoc_path_in_nodup _ _ _ _ ND H). reflexivity.
+  intros [x c] [x' c']. unfold file_eqb. simpl. rewrite andb_true_iff, str_eqb_eq. split.
+  - intros [H1 H2]. apply Bool.eqb_prop in H1. subst. reflexivity.
+  - intro H. inversion H; subst. split; [apply Bool.eqb_reflx | reflexivity].
+Qed.
+
+Lemma iblob_at_some : forall idx p x c, NoDup (map fst idx) ->
+  (iblob_at idx p = Some (x, c) <-> In (p, IBlob x c) idx).
+Proof.
+  intros idx p x c ND. unfold iblob_at. split.
+  - destruct (assoc_path p idx) as [[x' d|t|i|]|] eqn:A; intro H; try discriminate.
+    inversion H; subst. apply assoc_path_some_in. exact A.
+  - intro H. rewrite (assoc_path_in_nodup _ _ _ _ ND H). reflexivity.
 Qed.
 
 Lemma has_regular_true : forall idx p, NoDup (map fst idx) ->
@@ -825,12 +836,12 @@ Lemma has_regular_true : forall idx p, NoDup (map fst idx) ->
 Proof.
   intros idx p ND. unfold has_regular. rewrite existsb_exists. split.
   - intros [[q e] [Hin H]]. simpl in H. apply andb_true_iff in H as [H1 H2].
-    apply path_eqb_eq in H1. subst q. destruct e as [x c|t|i]; try discriminate.
-    assert (E : iblob_at idx p = Some c) by (apply iblob_at_some; [exact ND | exists x; exact Hin]).
+    apply path_eqb_eq in H1. subst q. destruct e as [x c|t|i|]; try discriminate.
+    assert (E : iblob_at idx p = Some (x, c)) by (apply iblob_at_some; [exact ND | exact Hin]).
     congruence.
-  - intro H. destruct (iblob_at idx p) as [c|] eqn:E; [|congruence].
-    apply iblob_at_some in E as [x Hin]; [|exact ND].
-    exists (p, IBlob x c). split; [exact Hin|]. simpl. rewrite path_eqb_refl. reflexivity.
+  - intro H. destruct (iblob_at idx p) as [[x c]|] eqn:E; [|congruence].
+    apply iblob_at_some in E; [|exact ND].
+    exists (p, IBlob x c). split; [exact E|]. simpl. rewrite path_eqb_refl. reflexivity.
 Qed.
 
 Lemma staged_set_spec : forall canon head idx, wf_head head -> NoDup (map fst idx) ->
@@ -840,12 +851,13 @@ Proof.
   intros canon head idx W ND f Hc. unfold get_staged_files.
   rewrite in_app_iff, In_filter_map, filter_In. split.
   - intros [[[p e] [Hin G]]|[Hin H]].
-    + simpl in G. destruct e as [x c|t|i]; try discriminate.
+    + simpl in G. destruct e as [x c|t|i|]; try discriminate.
       rewrite (head_map_lookup head W) in G.
-      assert (E : iblob_at idx p = Some c) by (apply iblob_at_some; [exact ND | exists x; exact Hin]).
-      destruct (head_blob_at head p) as [hc|] eqn:Hh.
-      * destruct (str_eqb hc c) eqn:S; [discriminate|]. inversion G; subst.
-        apply str_eqb_neq in S. rewrite E, Hh. congruence.
+      assert (E : iblob_at idx p = Some (x, c)) by (apply iblob_at_some; [exact ND | exact Hin]).
+      destruct (head_blob_at head p) as [hf|] eqn:Hh.
+      * destruct (file_eqb hf (x, c)) eqn:S; [discriminate|]. inversion G; subst.
+        rewrite E, Hh. intro Q. inversion Q; subst.
+        assert (T : file_eqb (x, c) (x, c) = true) by (apply file_eqb_eq; reflexivity). congruence.
       * inversion G; subst. rewrite E, Hh. discriminate.
     + apply assoc_path_in_fst in Hin. rewrite (head_map_lookup head W) in Hin.
       apply andb_true_iff in H as [H _]. apply negb_true_iff in H.
@@ -853,11 +865,11 @@ Proof.
       * exfalso. assert (T : has_regular idx f = true) by (apply has_regular_true; [exact ND | congruence]).
         congruence.
       * congruence.
-  - intro N. destruct (iblob_at idx f) as [c|] eqn:E.
-    + left. apply iblob_at_some in E as [x Hin]; [|exact ND].
-      exists (f, IBlob x c). split; [exact Hin|]. simpl. rewrite (head_map_lookup head W).
-      destruct (head_blob_at head f) as [hc|]; [|reflexivity].
-      destruct (str_eqb hc c) eqn:S; [|reflexivity]. apply str_eqb_eq in S. subst. congruence.
+  - intro N. destruct (iblob_at idx f) as [[x c]|] eqn:E.
+    + left. apply iblob_at_some in E; [|exact ND].
+      exists (f, IBlob x c). split; [exact E|]. simpl. rewrite (head_map_lookup head W).
+      destruct (head_blob_at head f) as [hf|]; [|reflexivity].
+      destruct (file_eqb hf (x, c)) eqn:S; [|reflexivity]. apply file_eqb_eq in S. subst. congruence.
     + right. destruct (head_blob_at head f) as [hc|] eqn:Hh; [|congruence]. split.
       * rewrite <- (head_map_lookup head W) in Hh. apply assoc_path_some_in in Hh.
         apply in_map_iff. exists (f, hc). split; [reflexivity | exact Hh].
